@@ -12,8 +12,10 @@ if [ "$REPO" != "/repo" ]; then
 fi
 mkdir -p work
 OUT=work/campaign.txt; : > $OUT
+# ONLY="C13 C16" restricts the campaign to the changes of those properties
 run_one() {
   local name="$1" patch="$2" prop="$3"; shift 3
+  if [ -n "${ONLY:-}" ] && ! echo " $ONLY " | grep -q " $prop "; then return; fi
   git -C "$REPO" checkout HEAD -- . 2>/dev/null
   if ! git -C "$REPO" apply "$VERIF/$patch" 2>/dev/null && ! git -C "$REPO" apply --3way "$VERIF/$patch" 2>/dev/null; then echo "$name $prop APPLY-FAILED" | tee -a $OUT; return; fi
   local log=work/campaign-$name.log
